@@ -190,7 +190,8 @@ class Check:
         if xc.get("disagree"):
             self.harness_error(f"second solver (z3 4.8.12) disagrees with z3 5.x on {len(xc['disagree'])} sampled obligation(s)")
         ob = sum(sum(g.values()) for g in self.groups.values())
-        discharged = sum(g.get("proved", 0) + g.get("ground", 0) + g.get("confirmed", 0) for g in self.groups.values())
+        discharged = sum(g.get("proved", 0) + g.get("ground", 0) + g.get("confirmed", 0) + g.get("identical-terms-or-ground", 0) for g in self.groups.values())
+        by_solver = sum(g.get("proved", 0) + g.get("confirmed", 0) for g in self.groups.values())
         unknown = sum(g.get("unknown", 0) for g in self.groups.values())
         cov = {
             "explanation": self.info.get("explanation", ""),
@@ -200,6 +201,7 @@ class Check:
             "samples": self.samples or ["(none)"],
             "obligations": ob,
             "discharged": discharged,
+            "discharged_by_solver_verdict": by_solver,
             "inconclusive": unknown,
             "inconclusive_notes": self.inconclusive[:50],
             "obligation_groups": self.groups,
